@@ -287,3 +287,73 @@ func parseValues(txt string, model map[string]uint64) {
 	}
 }
 
+
+// OneShot decides the conjunction of asserts with a fresh process of the given solver (no shared
+// state with the incremental session). Used as a second opinion when the primary answers unknown.
+func OneShot(kind string, st *term.Store, asserts []*term.Term, vars []*term.Term, timeoutMs int) (Result, map[string]uint64) {
+	var sb strings.Builder
+	switch kind {
+	case "cvc5":
+		sb.WriteString("(set-logic ALL)\n(set-option :produce-models true)\n")
+	default:
+		fmt.Fprintf(&sb, "(set-option :timeout %d)\n(set-option :model true)\n", timeoutMs)
+	}
+	st.WriteStandalone(&sb, asserts, vars)
+	sb.WriteString("(check-sat)\n")
+	if len(vars) > 0 {
+		sb.WriteString("(get-value (")
+		for _, v := range vars {
+			sb.WriteString(v.Ref())
+			sb.WriteByte(' ')
+		}
+		sb.WriteString("))\n")
+	}
+	var args []string
+	switch kind {
+	case "cvc5":
+		args = []string{"cvc5", "--lang=smt2", fmt.Sprintf("--tlimit=%d", timeoutMs)}
+	default:
+		args = []string{kind, "-in"}
+	}
+	cmd := exec.Command(args[0], args[1:]...)
+	cmd.Stdin = strings.NewReader(sb.String())
+	done := make(chan struct{})
+	var out []byte
+	go func() {
+		out, _ = cmd.CombinedOutput()
+		close(done)
+	}()
+	select {
+	case <-done:
+	case <-time.After(time.Duration(timeoutMs+5000) * time.Millisecond):
+		if cmd.Process != nil {
+			cmd.Process.Kill()
+		}
+		<-done
+		return Unknown, nil
+	}
+	txt := string(out)
+	if strings.Contains(txt, "(error") {
+		// get-value after unsat produces an error line; only errors before the verdict matter
+		if i := strings.Index(txt, "(error"); i >= 0 {
+			pre := txt[:i]
+			if !strings.Contains(pre, "unsat") {
+				return Unknown, nil
+			}
+		}
+	}
+	lines := strings.Split(txt, "\n")
+	for i, l := range lines {
+		switch strings.TrimSpace(l) {
+		case "unsat":
+			return Unsat, nil
+		case "sat":
+			m := map[string]uint64{}
+			parseValues(strings.Join(lines[i+1:], "\n"), m)
+			return Sat, m
+		case "unknown", "timeout":
+			return Unknown, nil
+		}
+	}
+	return Unknown, nil
+}
